@@ -143,6 +143,16 @@ CLAIMED["C10"] = dict(
          "of the output stage (TPE/GP/CMA) are only assumed to return a finite number in the box",
     design="§3 C10")
 
+CLAIMED["C15"] = dict(
+    text="Bounded symbolic execution of the real hypervolume (2-D and WFG), non-domination rank (constrained variant included) and HSSP code "
+         "on NumPy object arrays of exact z3 reals: every comparison forks, so ties/duplicates/dominated points are separate solver-checked "
+         "paths; hypervolume == inclusion-exclusion (polynomial identity decided by normalisation under the path's forced equalities, fallback "
+         "nonlinear query), rank == repeated peeling with the O(n^2) definition, HSSP returns k distinct members; the (1-1/e) bound is decided on "
+         "integer lattices with solver-enumerated coordinates.",
+    note="exactness over the reals (floating-point rounding of products outside); n<=3 quick / <=4 thorough, 2-3 dimensions; (1-1/e) only on the "
+         "stated lattices ({0..2}^2, {0..1}^3 / {0..2}^3)",
+    design="§3 C15")
+
 NOT_APPLICABLE = {
     "C03": "thread/process pre-emption at source-line granularity inside the storage layer cannot be made a symbolic variable over the "
            "real Python code by a solver-based executor; its atomic-step obligations are discharged under C01/C04/C06/C07",
